@@ -62,6 +62,8 @@ type histRun struct {
 	lastArgs   []string
 	lastIndex  bool
 	codeEdited bool // something other than source files / generated files was edited since the last process
+	// keepFailedReload: a project whose Reload failed is kept and reloaded again, as Watch does
+	keepFailedReload bool
 }
 
 func newHistRun(c *simcheck.Ctx, sc *histScenario) (*histRun, error) {
@@ -161,6 +163,8 @@ func (h *histRun) buildNamed(name string, i int, op *opSpec, pc procCfg, hook fu
 	h.codeEdited = false
 	if res.LoadErr == nil && res.Sim.Failure == nil && !res.Sim.Crashed && !res.Sim.Stuck {
 		h.lastProj = res.Proj
+	} else if h.keepFailedReload && bo.Reuse != nil && res.LoadErr != nil && res.Sim.Failure == nil && !res.Sim.Crashed && !res.Sim.Stuck {
+		h.lastProj = bo.Reuse
 	}
 	h.w.ctx.Sim(res.Sim, simcheck.ScenarioHash(h.p), pc.Strategy)
 	return res
